@@ -67,6 +67,9 @@ func (x *Exec) literalGlobal(fr *Frame, g *ssa.Global) (Val, bool) {
 	t := g.Type().Underlying().(*types.Pointer).Elem()
 	key := "lit:" + g.Pkg.Pkg.Path() + "." + g.Name()
 	switch sv := stored.(type) {
+	case *ssa.Const:
+		x.assumed[key] = true
+		return x.constVal(sv), true
 	case *ssa.MakeMap:
 		mt, ok := t.Underlying().(*types.Map)
 		if !ok {
